@@ -22,14 +22,22 @@ SSH_KEYGEN = shutil.which('ssh-keygen') or '/usr/bin/ssh-keygen'
 _REPORTED = {}
 
 
-def report(ctx, kind, what, replay, per_kind=2):
-    """Report a failing input; at most per_kind replays per kind of failure, the rest are only counted."""
+def report(ctx, kind, what, replay, per_kind=1):
+    """Report a failing input. One replay per kind of failure (kind = replay['kind']); further inputs of
+    the same kind are only counted in coverage.oracle['failing.<kind>']."""
+    fam = replay.get('kind', kind)
     ctx.count('failing.' + kind, group='oracle')
-    n = _REPORTED.get(kind, 0)
-    _REPORTED[kind] = n + 1
+    n = _REPORTED.get(fam, 0)
+    _REPORTED[fam] = n + 1
     if n < per_kind:
         if ctx.failing_input(what, replay) and ctx.violations > 5:
-            ctx.log(f'failing input [{kind}] (replay not written, more than 5 violations): ' + what[:1200])
+            # core writes replays for the first five violations only; keep one per kind anyway
+            try:
+                rel = ctx._write_replay(dict(replay, property=ctx.pid, what=what))
+                print(f'VIOLATION property={ctx.pid} replay={rel}', flush=True)
+            except Exception:
+                pass
+            ctx.log('   ' + what[:1500])
 
 
 # ================================================================================================
@@ -328,7 +336,7 @@ def gen_component(rng, clean):
     r = rng.random()
     if r < 0.30:
         c = rng.choice(HOSTS)
-    elif r < 0.42:
+    elif r < (0.34 if clean else 0.42):
         c = rng.choice(ADDRS4 + ADDRS6)
     elif r < 0.70:
         c = rng.choice(WILD)
@@ -368,7 +376,8 @@ def gen_kh_file(rng, clean):
     for _ in range(n):
         r = rng.random()
         if r < 0.08:
-            lines.append({'skip': True, 'text': rng.choice(['# comment', '', '   ', '#h ssh-ed25519 AAAA', '  # x'])})
+            lines.append({'skip': True, 'text': rng.choice(['# comment', '', '   ', '#h ssh-ed25519 AAAA', '  # x',
+                                                            '#h ' + key_text(0), '#a.ex.com,h1 ' + key_text(1), ' #h\t' + key_text(2)])})
             continue
         marker = rng.choice([None, None, None, 'cert-authority', 'revoked', 'revoked'])
         hashed = None
@@ -376,7 +385,7 @@ def gen_kh_file(rng, clean):
             nm = rng.choice(HOSTS + ADDRS4)
             if rng.random() < 0.4:
                 nm = '[%s]:%d' % (nm, rng.choice(PORTS))
-            if clean or rng.random() < 0.7:
+            if clean or rng.random() < 0.45:
                 pat, hashed = hashed_pattern(rng, nm)
             else:
                 k = rng.random()
@@ -454,18 +463,26 @@ def gen_query(rng, lines):
                 names.append((c, None))
     host = rng.choice(HOSTS)
     port = rng.choice([None, None, None] + PORTS)
+    addr_forced = None
     if names and rng.random() < 0.6:
         nm, p = rng.choice(names)
         if any(ch in nm for ch in '*?'):
             nm = rng.choice(HOSTS)
         host = nm
+        if ref.parse_ip(nm) is not None and rng.random() < 0.5:
+            host = rng.choice(HOSTS)
+            addr_forced = nm
         if p is not None and rng.random() < 0.8:
             port = p
         elif rng.random() < 0.3:
             port = rng.choice(PORTS)
+    if any(ln.get('skip') and ln['text'].lstrip().startswith('#h') for ln in lines) and rng.random() < 0.5:
+        host = '#h'                               # a commented-out entry must stay invisible
     addr = rng.choice(['', '', ''] + ADDRS4 + ADDRS6[:2])
     if ref.parse_ip(host) is not None:
         addr = rng.choice([host, ''])          # a literal address as host name: the address is that address
+    elif addr_forced is not None:
+        addr = addr_forced
     return host, addr, port
 
 
@@ -482,7 +499,13 @@ def all_strings(alpha, maxlen):
 
 
 def stage_wild(ctx):
-    from asyncssh.pattern import WildcardPattern, WildcardPatternList, HostPatternList
+    try:
+        from asyncssh.pattern import WildcardPattern, WildcardPatternList, HostPatternList
+        from asyncssh.misc import ip_address
+    except ImportError:
+        # internal classes moved: the known_hosts / authorized_keys stages (public API) still cover matching
+        ctx.cov['correspondence']['wild'] = 'unavailable: asyncssh.pattern classes not found'
+        return
     rng = ctx.rng
     cases = []
     pairs = []
@@ -490,7 +513,9 @@ def stage_wild(ctx):
         pats = all_strings('a*?', 5)
         vals = all_strings('ab', 4)
         pairs += [(p, v) for p in pats for v in vals]
-        ctx.cov['exhaustive'] = 'wildcard matcher: all patterns over {a,*,?} up to length 5 x all values over {a,b} up to length 4'
+        pairs += [(p, v) for p in all_strings('ab*?', 4) for v in all_strings('ab', 5) if 'b' in p]
+        ctx.cov['exhaustive'] = ('wildcard matcher: all patterns over {a,*,?} up to length 5 x all values over {a,b} up to length 4, '
+                                 'and all patterns over {a,b,*,?} up to length 4 x all values over {a,b} up to length 5')
     else:
         pats = all_strings('a*?', 4)
         vals = all_strings('ab', 3)
@@ -541,7 +566,7 @@ def stage_wild(ctx):
             report(ctx, 'wpl', f'WildcardPatternList({pl!r}).matches({v!r}) = {got}, rules give {exp}',
                               {'kind': 'wpl', 'patterns': pl, 'value': v})
     from asyncssh.misc import ip_address
-    for _ in range(4000 if ctx.tier == 'thorough' else 900):
+    for _ in range(10000 if ctx.tier == 'thorough' else 900):
         pl = gen_patterns(rng, False, rng.random() < 0.1)
         host = rng.choice(HOSTS + ['', '10.0.0.1'])
         addr = rng.choice(ADDRS4 + ADDRS4 + ADDRS6 + ['', '0:0::1', '10.0.0.255', '11.0.0.0', '9.255.255.255', '10.1.3.0', 'febf::1', 'fec0::1'])
@@ -574,7 +599,11 @@ def stage_wild(ctx):
 
 
 def stage_ip(ctx):
-    from asyncssh.misc import ip_address, ip_network
+    try:
+        from asyncssh.misc import ip_address, ip_network
+    except ImportError:
+        ctx.cov['correspondence']['ip4'] = 'unavailable: asyncssh.misc.ip_address/ip_network not found'
+        return
     rng = ctx.rng
     texts = list(ADDRS4) + ['0.0.0.0', '255.255.255.255', '256.0.0.1', '1.2.3', '1.2.3.4.5', '01.2.3.4', '00.0.0.0', '1.2.3.04',
                             '1..2.3', '.1.2.3', '1.2.3.', '1.2.3.4 ', ' 1.2.3.4', '1.2.3.a', '1.2.3.-1', '1.2.3.+1', '1111.1.1.1',
@@ -674,16 +703,25 @@ def kh_classify(lines, q, exp, got, fell_back):
     has_empty = any((not ln.get('skip')) and not ln.get('hashed') and '' in ln['pattern'].split(',') for ln in lines)
     if has_empty and (not addr or not host):
         return 'kh_empty_component'
-    bare_ip = any((not ln.get('skip')) and not ln.get('hashed') and
-                  any(ref.parse_ip(c.lstrip('!')) is not None for c in ln['pattern'].split(',')) for ln in lines)
-    if bare_ip:
-        return 'kh_bare_address_pattern'
     return 'kh_lookup'
+
+
+def address_pattern_with_port(lines, q):
+    """OpenSSH has no address semantics in known_hosts; asyncssh compares a bare address entry of a
+    pattern list numerically with the connection's address, whatever the port (its own test-suite pins
+    this: test_known_hosts 'Negative addr').  For a lookup with a port in a file with such an entry
+    there is no documented rule to judge by, so the oracle abstains (the correspondence does not)."""
+    return bool(q[2]) and any(
+        (not ln.get('skip')) and not ln.get('hashed') and
+        any(ref.parse_ip(c.lstrip('!')) is not None for c in ln['pattern'].split(',')) for ln in lines)
 
 
 def kh_oracle(ctx, lines, text, q, got):
     """Direct oracle on a clean file: the implementation's answer against the documented rules."""
     host, addr, port = q
+    if address_pattern_with_port(lines, q):
+        ctx.count('abstained.address_pattern_with_port', group='oracle')
+        return True
     (et, ec, er), fell_back = ref.kh_lookup(lines, host, addr, port)
     if got is not None and (set(got[0]), set(got[1]), set(got[2])) == (et, ec, er):
         return True
@@ -693,13 +731,14 @@ def kh_oracle(ctx, lines, text, q, got):
         f'match_known_hosts on {text!r} for host={host!r} addr={addr!r} port={port!r} returned '
         f'{"an exception" if got is None else "trusted=%s ca=%s revoked=%s" % tuple(map(list, got))}; the file-format rules select '
         f'trusted={sorted(et)} ca={sorted(ec)} revoked={sorted(er)} (key ids = index in the key pool) [{kind}]',
-        {'kind': kind, 'file': 'known_hosts', 'lines': lines, 'query': [host, addr, port]})
+        {'kind': kind.split(':')[0], 'damage': kind.split(':')[1] if ':' in kind else None,
+         'file': 'known_hosts', 'lines': lines, 'query': [host, addr, port]})
     return False
 
 
 def stage_known_hosts(ctx):
     rng = ctx.rng
-    nfiles = 1400 if ctx.tier == 'thorough' else 330
+    nfiles = 4200 if ctx.tier == 'thorough' else 330
     tmp = tempfile.mkdtemp(prefix='c17-', dir='/var/tmp')
     have_keygen = os.path.exists(SSH_KEYGEN)
     ctx.cov['oracle']['ssh_keygen'] = SSH_KEYGEN if have_keygen else 'absent: ssh-keygen oracle skipped'
@@ -769,7 +808,7 @@ def stage_known_hosts(ctx):
                                   f'reference selects lines {sorted(sel)}, ssh-keygen -F {name!r} reports {kg} on {text!r}')
                     # the implementation with the same single name (no address, no fallback wanted: compare selection)
                     got1, _ = impl_kh(text, host, '', port)
-                    if got1 is not None:
+                    if got1 is not None and not address_pattern_with_port(lines, (host, '', port)):
                         # undo the fallback for the comparison: selection for the exact name only
                         exp_t = {good[n]['key'] for n, m in kg.items() if m is None}
                         exp_c = {good[n]['key'] for n, m in kg.items() if m == 'cert-authority'}
@@ -819,7 +858,7 @@ def stage_known_hosts(ctx):
     if bad:
         ctx.broke('correspondence:known_hosts', f'{len(bad)} of {len(cases)} files differ; first: {metas[bad[0]]!r}')
     need = {'selected': 100, 'fallback': 5, 'hashed_hit': 3, 'neg_excl': 1, 'revoked': 20, 'ca': 20, 'errors': 5}
-    if os.path.exists(SSH_KEYGEN):
+    if have_keygen:
         need['keygen_found'] = 20
     low = {k: st[k] for k, n in need.items() if st[k] < n}
     if low:
@@ -908,12 +947,32 @@ def gen_ossh_options(rng):
 def gen_free_options(rng):
     """Anything the asyncssh tokenizer may see: partial quotes, escapes, repeats, malformed pieces."""
     parts = []
+    if rng.random() < 0.2:
+        # repeats of one option, everything else well formed
+        k = rng.choice(['environment', 'command', 'from', 'principals', 'permitopen', 'tunnel', 'flag'])
+        for _ in range(rng.randint(2, 3)):
+            if k == 'environment':
+                parts.append('environment="%s"' % rng.choice(['A=1', 'A=2', 'A=', 'B=1', 'A=b']))
+            elif k == 'command':
+                parts.append('command="%s"' % rng.choice(['ls', 'id', 'true']))
+            elif k == 'from':
+                parts.append('from="%s"' % gen_from(rng, True))
+            elif k == 'principals':
+                parts.append('principals="%s"' % rng.choice(['alice', 'bob,root', 'al*', '*,!bob']))
+            elif k == 'permitopen':
+                parts.append('permitopen="%s"' % rng.choice(['h:80', 'h:80', 'h:*', '[h]:80', 'g:1']))
+            elif k == 'tunnel':
+                parts.append('tunnel="%d"' % rng.randint(0, 2))
+            else:
+                parts.append(rng.choice(['no-pty', 'no-pty', 'restrict']))
+        rng.shuffle(parts)
+        return ','.join(parts)
     for _ in range(rng.choice([1, 1, 2, 3, 4, 5])):
         r = rng.random()
         if r < 0.15:
             name, val = 'command', rng.choice(CMDS)
         elif r < 0.3:
-            name, val = 'environment', rng.choice(ENVS + ['=x', 'NOEQ', ''])
+            name, val = 'environment', rng.choice(ENVS + ['=x', 'NOEQ', '', 'A=1', 'A=2', 'A=', 'A=b'])
         elif r < 0.45:
             name, val = 'from', gen_from(rng, False)
         elif r < 0.55:
@@ -1037,12 +1096,18 @@ def ak_compare(exp, got):
 
 
 def stage_options_tokenizer(ctx):
-    from asyncssh.misc import OptionsParser
     rng = ctx.rng
+    try:
+        from asyncssh.misc import OptionsParser
+        OptionsParser._parse_options
+    except (ImportError, AttributeError):
+        # the bare tokenizer is an internal; authorized_keys (public API) still exercises it
+        ctx.cov['correspondence']['tokenizer'] = 'unavailable: asyncssh.misc.OptionsParser._parse_options not found'
+        return
     lines = ['', ' ', 'a', 'a ', 'a,b c', 'no-pty', 'a=1,a=2 k', 'a,a=1 k', 'a=1,a k', '"', '\\', 'a\\', 'x="a b",y k', 'x=a\\ b k',
              'x="a\\"b" k', 'x=\\"a k', ',', ',, k', 'a=,b= k', '=a k', 'a==b k', 'x="a,b" k', 'x=a"b c"d e', 'a\tb', 'a \t b  ',
              'x="\t" k', 'a b c', 'é=ü k']
-    for _ in range(2500 if ctx.tier == 'thorough' else 600):
+    for _ in range(7000 if ctx.tier == 'thorough' else 600):
         o = gen_free_options(rng)
         lines.append(o + rng.choice([' ', ' ', '\t', '  ', '']) + rng.choice(['k', 'ssh-ed25519 AAAA c', '', 'k  ']))
     for _ in range(1000 if ctx.tier == 'thorough' else 250):
@@ -1092,7 +1157,7 @@ def ak_kind(line):
 
 def stage_authorized_keys(ctx):
     rng = ctx.rng
-    nfiles = 1600 if ctx.tier == 'thorough' else 380
+    nfiles = 4800 if ctx.tier == 'thorough' else 380
     cases, metas = [], []
     st = {'accepted': 0, 'rejected_by_from': 0, 'rejected_by_principals': 0, 'errors': 0, 'oracle_cases': 0, 'damaged_ok': 0, 'multi': 0}
     for fi in range(nfiles):
@@ -1207,6 +1272,13 @@ def run(ctx):
         '(modelled and tied, whitespace tables checked against the running interpreter)',
         'the direct oracle is harness/c17_ref.py, written from the OpenSSH manual pages and sources; on single-name known_hosts '
         'lookups it is itself cross-checked against `ssh-keygen -F` (OpenSSH 9.2) on every run',
+        'for a lookup with both a host name and an address the reference applies each pattern list to both names jointly (the '
+        "property's wording: a negated match always excludes the line); OpenSSH itself looks the two names up separately",
+        'the oracle abstains where no documented rule exists: bare-address entries of known_hosts pattern lists looked up with a '
+        'port (asyncssh matches them numerically whatever the port, pinned by its own test-suite), CIDR entries in known_hosts '
+        '(asyncssh extension), option strings OpenSSH would refuse (unquoted values, unknown flags, duplicate environment names), '
+        'structurally malformed lines (unknown marker, missing fields, malformed hash) - the correspondence covers all of these',
+        'int() in permitopen is modelled for ASCII digits, sign, underscores and surrounding blanks only',
         'not modelled: X.509 certificate/subject entries, the subject= option, scoped IPv6 addresses (%zone), OpenSSH '
         'certificates placed in known_hosts, reading from files (only the text interfaces are exercised)',
     ]
